@@ -97,7 +97,11 @@ def Decls.iterOf (D : Decls) (c : String) : Option CT :=
 def Decls.hasStar (D : Decls) (c : String) (l : Nat) : Bool :=
   D.reg.any fun x => x.1.1 = c ∧ l < x.2.deref
 
-def fallbackCT : CT := { cls := Generated.C10.fallbackType, lvl := 0, depth := Generated.C10.fallbackDepth }
+/-- the property's own constants (not the generated ones): an undeclared method is a `double` -/
+def fallbackCT : CT := { cls := "double", lvl := 0, depth := 0 }
+
+/-- … unless the receiver is one of these, on which a method call is refused -/
+def specBaseTypes : List String := ["double", "float", "int"]
 
 /-- the method `m` of class `c` at `operator*` level `l` -/
 def Decls.methodOf (D : Decls) (c : String) (l : Nat) (m : String) : Option CT :=
@@ -107,7 +111,7 @@ def Decls.methodOf (D : Decls) (c : String) (l : Nat) (m : String) : Option CT :
     if l ≠ 0 then none
     else
       let fb : Option CT :=
-        if (c, m) ∈ D.warned ∧ c ∉ Generated.C10.baseTypes ∧ l = Generated.C10.fallbackDeref then some fallbackCT else none
+        if (c, m) ∈ D.warned ∧ c ∉ specBaseTypes then some fallbackCT else none
       if m = "at" then (match D.iterOf c with | some E => some E | none => fb) else fb
 
 def arithAll : List String := ["double", "float", "int", "bool", "long", "short", "char", "unsigned", "unsigned int", "long long", "size_t"]
@@ -364,6 +368,34 @@ def fragOk (D : Decls) (f : FragObs) : Except String Unit := do
     if !colOk D Γ c.decl c.isSeq e then
       throw s!"column {c.name}: declared as `{c.decl}`, which is not the declared (tree) type of `{c.rhs}`, or the static_cast is wrong"
   return ()
+
+/-! ### which queries the property obliges the translator to accept -/
+
+/-- the type a step leads to; `none` = the property lets the translator refuse (method call on
+`double`/`float`/`int`, index or loop on something that is not a collection) -/
+def specStepTy (reg : Registry) (ty : RTy) : Step → Option RTy
+  | .call m _ =>
+    match reg.find ty.term.name m with
+    | some i => some i.rty
+    | none => if ty.term.name ∈ specBaseTypes then none else some (.value { name := "double", depth := 0 })
+  | .index _ => match ty with | .coll _ e => some (.value e) | .value _ => none
+  | .each => match ty with | .coll _ e => some (.value e) | .value _ => none
+
+def specRunTy (reg : Registry) : RTy → List Step → Option RTy
+  | ty, [] => some ty
+  | ty, st :: rest => match specStepTy reg ty st with
+    | none => none
+    | some ty' => specRunTy reg ty' rest
+
+/-- a column must be accepted when its chain runs through and ends in a value (for `+ 1`: an
+`int`/`float`/`double`) -/
+def specAccepts (reg : Registry) (rootElem : Term) (steps : List Step) (fin : ColFin) : Bool :=
+  match specRunTy reg (.value rootElem) steps with
+  | none => false
+  | some (.coll _ _) => false
+  | some (.value t) => match fin with
+    | .addOne => t.name ∈ arithNames
+    | _ => true
 
 /-! ### enums -/
 
